@@ -11,15 +11,15 @@ import (
 
 // verifMemDir builds a real MemDir holding nf files of ns statements with a
 // valid sum file. Statement j of file i is "S<i>_<j>".
-func verifMemDir(nf, ns int) (*MemDir, [][]string) { return verifMemDirCk(nf, ns, -1) }
+func verifMemDir(nf, ns int) (*MemDir, [][]string) { return verifMemDirCk(nf, ns, 0) }
 
-// verifMemDirCk: file ck (if >= 0) is tagged as a checkpoint.
-func verifMemDirCk(nf, ns, ck int) (*MemDir, [][]string) {
+// verifMemDirCk: file i is tagged as a checkpoint when bit i of mask is set.
+func verifMemDirCk(nf, ns, mask int) (*MemDir, [][]string) {
 	d := &MemDir{}
 	all := make([][]string, nf)
 	for i := 0; i < nf; i++ {
 		content := ""
-		if i == ck {
+		if mask&(1<<i) != 0 {
 			content = "-- atlas:checkpoint\n\n"
 		}
 		for j := 0; j < ns; j++ {
@@ -43,22 +43,25 @@ func verifMemDirCk(nf, ns, ck int) (*MemDir, [][]string) {
 
 func verifC09(maxF, maxS, faultyRuns int) { verifC09ck(maxF, maxS, faultyRuns, false) }
 
-// verifC09ck: with checkpoints, any one file may be a checkpoint: the first run on
-// the empty database starts there, the files before it are never executed.
+// verifC09ck: with checkpoints, any subset of the files may be checkpoints: the first run on
+// the empty database starts at the latest one, the files before it are never executed, and
+// the regular files after it all are.
 func verifC09ck(maxF, maxS, faultyRuns int, checkpoints bool) {
 	nf := verifChoice("files", maxF) + 1
 	ns := verifChoice("stmts", maxS) + 1
-	ck := -1
+	mask := 0
 	if checkpoints {
-		ck = verifChoice("checkpoint", nf+1) - 1
-		if ck >= 0 {
+		mask = verifChoice("checkpoints", 1<<nf)
+		if mask != 0 {
 			verifReach("checkpoint")
 		}
 	}
-	dir, all := verifMemDirCk(nf, ns, ck)
+	dir, all := verifMemDirCk(nf, ns, mask)
 	first := 0
-	if ck > 0 {
-		first = ck
+	for i := 0; i < nf; i++ {
+		if mask&(1<<i) != 0 {
+			first = i
+		}
 	}
 	var flat []string
 	for _, f := range all[first:] {
